@@ -38,6 +38,17 @@
      Exit(c)         Clients::unregister(self.guard, ..): registry update; the guard moves in
      DropGuard(c)    the guard is dropped at the end of unregister(): on_disconnect
 
+   Second fault class (Panics): instead of returning an error the stream adapter may panic inside any
+   stream operation (IoPanic).  The panic unwinds the task that polled the stream - the task running
+   accept() during admission, the connection actor's task afterwards (tokio catches it at the task
+   boundary).  TaskUnwind(c): every local of the unwinding frames is dropped, among them the guard
+   wherever it currently lives (authorize_with / accept / Config / the Actor struct), so the policy
+   still sees exactly one disconnect.  Clients::unregister is *not* run by a panicking actor: the
+   registry keeps a stale entry for the dead connection ("crashed") until the endpoint's entry is
+   replaced, promoted over or shut down - that is the code's behaviour, not part of C07.
+   SilentUnwind = TRUE models a Drop that stays silent while `std::thread::panicking()`; TLC must
+   refute ExactlyOnceAtEnd for it.
+
    GuardLate = TRUE is the mutation "guard constructed after the confirmation write" (anti-vacuity):
    TLC must refute ExactlyOnceAtEnd for it.
 
@@ -52,7 +63,9 @@ CONSTANTS Conns, Keys, KeyOf,
           Helper,             \* TRUE: Displace(c) models an untracked newer connection of the same endpoint
           QuiescentEnv,       \* TRUE: the environment acts only while every connection is at rest (what a harness can force)
           Paths, Proofs,      \* subsets of {"km", "challenge"} / BOOLEAN explored by Start / Verify
-          GuardLate
+          GuardLate,
+          Panics,             \* TRUE: a stream operation may also *panic* (bug in the embedder's stream adapter)
+          SilentUnwind        \* TRUE: the guard's Drop does nothing while the thread is unwinding (anti-vacuity)
 
 None == "none"
 SvcScript == IF Script = "full" THEN <<"ping", "deliver", "tick", "pongback", "tick">>
@@ -92,7 +105,7 @@ Log(c, l) == hist' = [hist EXCEPT ![c] = Append(@, l)] /\ UNCHANGED order
 \* a step of the environment: logged per connection and in the global order
 Env(c, e, f) == /\ hist' = [hist EXCEPT ![c] = Append(@, [ev |-> e, f |-> f, op |-> "-", ok |-> TRUE])]
                 /\ order' = Append(order, <<c, e>>)
-AtRest == \A c \in Conns : /\ pc[c] \in {"idle", "rejected", "gone", "serve"}
+AtRest == \A c \in Conns : /\ pc[c] \in {"idle", "rejected", "gone", "crashed", "serve"}
                            /\ pc[c] = "serve" => (msgq[c] = 0 /\ ~cancelled[c])
 EnvOk == QuiescentEnv => AtRest
 Goto(c, p) == pc' = [pc EXCEPT ![c] = p] /\ UNCHANGED <<cont, frame, io, opn>>
@@ -121,6 +134,29 @@ IoFail(c) ==
   /\ Log(c, [ev |-> "io", f |-> frame[c], op |-> Head(io[c]), ok |-> FALSE])
   /\ UNCHANGED <<owner, id, nextId, nconn, allowed, ndisc, discId, reg, active, inactive,
                  cancelled, msgq, svc, cause, displaced, pinged, shut>>
+
+\* the stream adapter panics inside the operation: the polling task unwinds
+IoPanic(c) ==
+  /\ Panics /\ pc[c] = "io" /\ io[c] # <<>> /\ faults < MaxFaults
+  /\ faults' = faults + 1
+  /\ faultAt' = [faultAt EXCEPT ![c] = frame[c]] /\ ownerAtFault' = [ownerAtFault EXCEPT ![c] = owner[c]]
+  /\ io' = [io EXCEPT ![c] = <<>>] /\ UNCHANGED <<cont, frame, opn>>
+  /\ pc' = [pc EXCEPT ![c] = "panicking"]
+  /\ Log(c, [ev |-> "panic", f |-> frame[c], op |-> Head(io[c]), ok |-> FALSE])
+  /\ UNCHANGED <<owner, id, nextId, nconn, allowed, ndisc, discId, reg, active, inactive,
+                 cancelled, msgq, svc, cause, displaced, pinged, shut>>
+
+\* unwinding drops the frames' locals / the Actor struct and with them the guard; no unregister
+TaskUnwind(c) ==
+  /\ pc[c] = "panicking"
+  /\ Goto(c, IF owner[c] = "actor" THEN "crashed" ELSE "rejected")
+  /\ IF owner[c] \in {"authorize", "accept", "config", "actor"}
+        THEN /\ owner' = [owner EXCEPT ![c] = "dropped"]
+             /\ IF SilentUnwind THEN UNCHANGED <<ndisc, discId>>
+                ELSE ndisc' = [ndisc EXCEPT ![c] = @ + 1] /\ discId' = [discId EXCEPT ![c] = id[c]]
+        ELSE UNCHANGED <<owner, ndisc, discId>>
+  /\ UNCHANGED <<id, nextId, nconn, allowed, reg, active, inactive, cancelled, msgq, svc, cause, displaced, pinged, shut,
+                 faults, faultAt, ownerAtFault, hist, order>>
 
 \* ---------------- admission: Inner::accept ----------------
 Rest == <<owner, id, nextId, nconn, allowed, ndisc, discId, reg, active, inactive, cancelled, msgq, svc, cause,
@@ -269,13 +305,13 @@ Disconnect(c, how) ==
 \* Clients::shutdown (the supervisor has stopped accepting: no connection is inside accept())
 Shutdown ==
   /\ "shutdown" \in Causes /\ ~shut /\ shut' = TRUE
-  /\ \A c \in Conns : pc[c] \in {"idle", "rejected", "gone", "drop", "exit"} \/ InService(c)
+  /\ \A c \in Conns : pc[c] \in {"idle", "rejected", "gone", "crashed", "drop", "exit"} \/ InService(c)
   /\ EnvOk
   /\ \E c \in Conns : reg[c]
   /\ cancelled' = [c \in Conns |-> cancelled[c] \/ InRegistry(c)]
-  /\ cause' = [c \in Conns |-> IF cause[c] = "-" /\ InRegistry(c) /\ pc[c] \notin {"exit", "drop"} THEN "shutdown" ELSE cause[c]]
+  /\ cause' = [c \in Conns |-> IF cause[c] = "-" /\ InRegistry(c) /\ pc[c] \notin {"exit", "drop", "crashed", "panicking"} THEN "shutdown" ELSE cause[c]]
   /\ active' = [k \in Keys |-> None] /\ inactive' = [k \in Keys |-> <<>>]
-  /\ hist' = [c \in Conns |-> IF InRegistry(c) THEN Append(hist[c], [ev |-> "shutdown", f |-> "-", op |-> "-", ok |-> TRUE]) ELSE hist[c]]
+  /\ hist' = [c \in Conns |-> IF InRegistry(c) /\ pc[c] # "crashed" THEN Append(hist[c], [ev |-> "shutdown", f |-> "-", op |-> "-", ok |-> TRUE]) ELSE hist[c]]
   /\ order' = Append(order, <<"-", "shutdown">>)
   /\ UNCHANGED <<owner, id, nextId, nconn, allowed, ndisc, discId, reg, msgq, svc, displaced, pinged, faults, faultAt, ownerAtFault>>
   /\ UNCHANGED cvars
@@ -304,7 +340,7 @@ DropGuard(c) ==
   /\ UNCHANGED <<id, nextId, nconn, allowed, reg, active, inactive, cancelled, msgq, svc, cause, displaced, pinged, shut,
                  faults, faultAt, ownerAtFault, hist, order>>
 
-Next == \/ \E c \in Conns : \/ IoStep(c) \/ IoFail(c) \/ Start(c) \/ ReadAuth(c) \/ Verify(c) \/ NewRequest(c)
+Next == \/ \E c \in Conns : \/ IoStep(c) \/ IoFail(c) \/ IoPanic(c) \/ TaskUnwind(c) \/ Start(c) \/ ReadAuth(c) \/ Verify(c) \/ NewRequest(c)
                             \/ OnConnect(c) \/ MakeGuard(c) \/ RetGuard(c) \/ BuildConfig(c) \/ Register(c) \/ Unwind(c)
                             \/ SvcPing(c) \/ DoPong(c) \/ SvcDeliver(c) \/ SvcTick(c) \/ SvcPongBack(c) \/ PongTimeout(c)
                             \/ ActorMsg(c) \/ LoopFlush(c)
@@ -313,7 +349,7 @@ Next == \/ \E c \in Conns : \/ IoStep(c) \/ IoFail(c) \/ Start(c) \/ ReadAuth(c)
         \/ Shutdown
 Spec == Init /\ [][Next]_vars
 \* server steps are fair; a started connection's client eventually closes or the server shuts down
-ServerStep(c) == IoStep(c) \/ ReadAuth(c) \/ Verify(c) \/ NewRequest(c) \/ OnConnect(c) \/ MakeGuard(c) \/ RetGuard(c)
+ServerStep(c) == IoStep(c) \/ TaskUnwind(c) \/ ReadAuth(c) \/ Verify(c) \/ NewRequest(c) \/ OnConnect(c) \/ MakeGuard(c) \/ RetGuard(c)
                  \/ BuildConfig(c) \/ Register(c) \/ Unwind(c) \/ SvcPing(c) \/ DoPong(c) \/ SvcDeliver(c) \/ SvcTick(c)
                  \/ SvcPongBack(c) \/ PongTimeout(c) \/ ActorMsg(c)
                  \/ LoopFlush(c) \/ CancelObserved(c) \/ Exit(c) \/ DropGuard(c)
@@ -321,7 +357,7 @@ FairSpec == Spec /\ \A c \in Conns : WF_vars(ServerStep(c)) /\ WF_vars(Close(c))
 
 ---------------------------------------------------------------------------
 (* C07 *)
-Done(c) == pc[c] \in {"rejected", "gone"}
+Done(c) == pc[c] \in {"rejected", "gone", "crashed"}
 OnConnectOnce == \A c \in Conns : nconn[c] <= 1
 AtMostOneDisconnect == \A c \in Conns : ndisc[c] <= 1
 \* a disconnect is reported only for an admitted connection, with the id given at admission
@@ -333,6 +369,7 @@ GuardConservation == \A c \in Conns :
       <=> (allowed[c] = "allow" /\ ndisc[c] = 0 /\ pc[c] # "make_guard")
 \* a connection the policy denies (or that never got to the policy) is never registered
 DeniedNeverRegistered == \A c \in Conns : reg[c] => (nconn[c] = 1 /\ allowed[c] = "allow")
+\* the registry holds registered, unfinished connections - and stale entries of crashed actors
 RegistryOnlyLive == \A c \in Conns : InRegistry(c) => (reg[c] /\ pc[c] \notin {"gone", "drop", "rejected"})
 IdsDistinct == \A c, d \in Conns : (c # d /\ id[c] # 0) => id[c] # id[d]
 \* when a connection is over, the policy has seen exactly one disconnect iff it admitted it
